@@ -9,7 +9,8 @@ git -C /repo worktree add -q --detach $wt HEAD || exit 2
 trap 'git -C /repo worktree remove --force $wt >/dev/null 2>&1' EXIT INT TERM
 (cd $wt && git apply "$HERE/seeded/$id/patch.diff") || { echo "seed=$id does not apply"; exit 2; }
 for p in "$@"; do
-  out=$(VERIF_REPO=$wt ./check $p $tier 2>&1); rc=$?
-  echo "seed=$id check=$p rc=$rc $(echo "$out" | tail -1)"
+  out=$(VERIF_REPO=$wt VP_EVIDENCE_DIR=/var/tmp/vp-seed-evidence ./check $p $tier 2>&1); rc=$?
+  orc=$(echo "$out" | grep -A1 "^VIOLATION" | grep "^  " | head -1 | sed 's/^  *//' | cut -d: -f1 | cut -c1-60)
+  echo "seed=$id check=$p rc=$rc oracle=[$orc] $(echo "$out" | tail -1)"
   echo "$out" | grep -E "^(VIOLATION|INFRA|  )" | head -6 | cut -c1-300
 done
